@@ -18,10 +18,7 @@ pub mod spec {
 pub mod zipcrypto {
 use vstd::prelude::*;
 use super::*;
-use ::std::num::Wrapping;
-// T8: src/zipcrypto.rs spells the I/O traits `std::io::Write` / `std::io::Result`; inside this module the name
-// `std` resolves to the shim I/O model (import only, the extracted text is unchanged)
-pub mod std { pub use crate::io; }
+use std::num::Wrapping;
 //@item src/zipcrypto.rs | struct ZipCryptoKeys
 //@item src/zipcrypto.rs | struct ZipCryptoWriter
 // ghost: the buffering ZipCrypto writer is not a device
@@ -32,7 +29,7 @@ impl<W> Dev for ZipCryptoWriter<W> {
     open spec fn g_fault(&self) -> bool { false }
 }
 //@impl src/zipcrypto.rs | impl<W: std::io::Write> std::io::Write for ZipCryptoWriter<W>
-impl<W: std::io::Write> std::io::Write for ZipCryptoWriter<W> {
+impl<W: Write> Write for ZipCryptoWriter<W> {   // T8 `std_io`: std::io::Write is the shim trait
 //@use zcwriter_write
 //@use zcwriter_flush
 }
